@@ -43,9 +43,50 @@ def std_finish(run, div, tot, rule, classify=None, level="model_checking", extra
                groups=len(run.groups), variants=len(run.variants), divergences=len(div), violating_parses=nviol, suppressed_by_known_finding=kcount, known_finding_samples=ksamples,
                trusted_base=["Go toolchain", "TLC 1.8.0", "the harness printer/runner (lib/peg.py, runner/*.go)"])
     cov["observation_classes"] = getattr(run, "stats", {})
+    cov.update(run.cov)
+    if "design_model" in run.cov:
+        cov["states"] += run.cov["design_model"].get("states", 0)
+        cov["transitions"] += run.cov["design_model"].get("transitions", 0)
     if extra:
         cov.update(extra)
     return run.finish(level, cov, ["PegRef.tla is the independent definition of the parse result; unicode folding restricted to the model alphabet"])
+
+
+ASBUILT = dict(stalectx=True, memolabel=True, freehit=True, acccap=0)     # M as the code is built (known findings F1, F2, F3)
+
+
+def machine_eligible(g):
+    return "lr" not in g.tags and "throw" not in g.tags
+
+
+def design_level(run, groups, inputs, options, ois, max_groups, asbuilt=None, liveness=False, inputs_idx=None, label="design_model", subset=None):
+    """exhaustive TLC run of the design model M over a bounded sub-family; results go to the evidence (never a verdict)"""
+    from rt import mc_machine
+    gs = [g for g in (subset if subset is not None else groups) if machine_eligible(g) and g.gi not in run.wit][:max_groups]
+    idx = inputs_idx if inputs_idx is not None else range(len(inputs))
+    plan = []
+    options = list(options) + [opt(maxexpr=40)]       # grammars that may diverge are explored under a small budget
+    for g in gs:
+        for ii in idx:
+            for oi in (ois(g) if not g.maydiverge or liveness else [len(options) - 1]):
+                plan.append([g.gi, ii + 1, oi + 1])
+    res = mc_machine(groups, inputs, options, plan, asbuilt or ASBUILT, liveness=liveness)
+    run.cov[label] = {k: res[k] for k in res if k != "tail"}
+    if not res["ok"]:
+        run.notes.append("%s: TLC reports %s on the design model M (a model counterexample alone is never a verdict): %s" % (label, res.get("violated"), res["tail"][-300:]))
+    return res
+
+
+def t2_bind(run, max_traces=2000, asbuilt=None):
+    """T2: the Debug traces of the real runs of this check are validated step by step against M"""
+    from rt import t2_sample
+    rej, tot = t2_sample(run, run.gp, run.tcase, max_traces=max_traces, asbuilt=asbuilt or ASBUILT, eligible=machine_eligible)
+    run.cov["t2"] = dict(traces=tot["n"], lines=tot.get("lines", 0), states=tot["states"], rejected=len(rej), invariants_violated=tot.get("invariants_violated", []))
+    if rej:
+        run.notes.append("model drift: %d of %d Debug traces are not behaviours of M (first: %s); step invariants not evaluated on them; no verdict depends on it" % (len(rej), tot["n"], rej[0]))
+    if tot.get("invariants_violated"):
+        run.notes.append("T2: a step invariant of M was violated on a real trace: %s" % tot["invariants_violated"])
+    return rej, tot
 
 
 # ------------------------------------------------------------------------------------------
@@ -63,13 +104,19 @@ def check_C01(tier, seed, replay=None):
     cfg = F.RandCfg(depth=4, maxrules=3, safe_rep=False)
     groups += F.random_groups(seed, nrand, cfg, gi0=len(groups) + 1)
     inputs = F.all_inputs([F.A, F.B, F.UA], maxlen)
-    options = [opt(), opt(maxexpr=3000), opt(entry="-")]
+    options = [opt(), opt(maxexpr=3000), opt(entry="-"), opt(debug=True)]
     allin = list(range(len(inputs)))
+    run.keep_debug = True
 
     def plan_for(g):
         oi = 1 if g.maydiverge else 0
-        return [(ii, oi) for ii in allin]
+        pl = [(ii, oi) for ii in allin]
+        if not g.maydiverge and g.gi % 4 == 0:
+            pl += [(ii, 3) for ii in allin[::3]]          # Debug(true) runs: the T2 traces
+        return pl
     div, tot = run.execute(groups, inputs, options, plan_for, flagsets)
+    design_level(run, groups, inputs, options, lambda g: [1] if g.maydiverge else [0], 192 if tier == "quick" else 100000)
+    t2_bind(run, 1500 if tier == "quick" else 20000)
     return std_finish(run, div, tot, "E(d) exhaustive single-rule grammars + random multi-rule grammars x all inputs up to the bound x flag sets; a group is distinct by construction (enumeration) and non-trivial when it has at least one operator")
 
 
@@ -91,6 +138,9 @@ def check_C02(tier, seed, replay=None):
         alpha = [R["a"], R["b"], R["nl"], R["eacute"], R["euro"]]
     # every expression of the family is wrapped so that a labelled value reaches a block
     trees = [("lact", t, ("lit", (), False)) for t in trees] + trees
+    sh = [("lit", (F.A,), False), ("cls", (F.A, F.B), (), False, False), ("any",), ("opt", ("lit", (F.A,), False))]
+    trees += [("shadow", a, b, c) for a in sh for b in sh for c in sh[:2]] + \
+             [("shadow", a, b, ("lit", (), False), ("pred", False, "true")) for a in sh for b in sh]
     groups = F.groups_from_trees(trees)
     cfg = F.RandCfg(depth=4, maxrules=3, leaves=F.LEAVES_UTF8 + F.LEAVES_FULL, preds=True, state=True, cloner=True)
     groups += F.random_groups(seed, nrand // 2, cfg, gi0=len(groups) + 1)
@@ -124,7 +174,8 @@ def add_lr(groups, inputs, n, seed, maxlen=4, pure=False):
     inputs += F.all_inputs([F.NN, F.PLUS, F.STAR_, F.LP], maxlen)
     rng = random.Random(seed)
     for _ in range(60):
-        inputs.append([rng.choice([F.NN, F.NN, F.PLUS, F.MINUS, F.STAR_, 94, F.LP, F.RP, 121]) for _ in range(rng.randint(maxlen + 1, maxlen + 3))])
+        inputs.append([rng.choice([F.NN, F.NN, F.PLUS, F.MINUS, F.STAR_, 94, F.LP, F.RP, 121, 120]) for _ in range(rng.randint(maxlen + 1, maxlen + 3))])
+    inputs += [[F.NN, op, F.NN, 120] for op in (F.PLUS, F.MINUS, F.STAR_)] + [[F.NN, F.PLUS, F.NN, F.PLUS, F.NN, 120], [F.NN, F.PLUS, F.NN, F.STAR_, F.NN, 120]]
     return list(range(first, len(inputs)))
 
 
@@ -146,6 +197,7 @@ def check_C05(tier, seed, replay=None):
     nin = len(inputs)
     lrin = add_lr(groups, inputs, 60 if tier == "quick" else 400, seed)     # state blocks inside left-recursive growth
     div, tot = run.execute(groups, inputs, options, budget_plan(nin, lr_inputs=lrin), flagsets)
+    design_level(run, groups, inputs, options, lambda g: [1] if g.maydiverge else [0], 400 if tier == "quick" else 100000, inputs_idx=range(nin))
     return std_finish(run, div, tot, "state blocks (shallow set/inc, in-place Cloner append, globalStore increments) at every position of E(d) skeletons + random grammars with state predicates; every event carries the store and globalStore its block saw and the entry action returns the final store; all inputs over {a,b} up to the bound")
 
 
@@ -209,7 +261,10 @@ def check_C06(tier, seed, replay=None):
         # Memoize on a grammar that iterates without consuming never returns (known finding F3, C16): not run here
         ois = [8 + i for i, c in enumerate(combos) if not c[0]] if g.maydiverge else range(8)
         return [(ii, oi) for ii in range(nin) for oi in ois]
+    run.keep_debug = True
     div, tot = run.execute(groups, inputs, options, plan_for, [[], ["-optimize-basic-latin", "-nolint"]])
+    design_level(run, groups, inputs, options, lambda g: [8, 8] if g.maydiverge else [0, 4], 300 if tier == "quick" else 100000, inputs_idx=range(nin))
+    t2_bind(run, 2500 if tier == "quick" else 30000)
     # real-vs-real: every option combination against the default run of the same parser
     npairs = 0
     for vx in range(len(run.variants)):
@@ -288,6 +343,7 @@ def check_C11(tier, seed, replay=None):
             groups.append(g)
     lr_first = len(inputs)
     inputs += F.all_inputs([F.NN, F.PLUS, F.STAR_], 4) + [[F.NN, F.PLUS, F.NN, F.STAR_, F.NN, F.PLUS, F.NN], [F.NN, F.MINUS, F.NN, F.PLUS, F.NN, F.NN]]
+    inputs += [[F.NN, a, F.NN, b, F.NN, 120] for a in (F.PLUS, F.MINUS, F.STAR_) for b in (F.PLUS, F.MINUS, F.STAR_)] + [[F.NN, a, F.NN, 120] for a in (F.PLUS, F.MINUS, F.STAR_)]
     lrin = list(range(lr_first, len(inputs)))
     options = []
     plans = {}
@@ -415,6 +471,19 @@ def check_C16(tier, seed, replay=None):
         ois = [i for i in range(nopt) if not (g.maydiverge and options[i]["memo"])]   # F3: not run in bulk
         return [(ii, oi) for ii in range(nin) for oi in ois]
     div, tot = run.execute(groups, inputs, options, plan_for, [[], ["-optimize-parser"]], timeout_ms=4000)
+    # design level: M under budgets, with Termination as a liveness property (weak fairness, lists abstracted to 2 elements).
+    # (i) as the property demands (a memo hit is charged): every run terminates;
+    bud = [i for i, o in enumerate(options[:nopt]) if o["maxexpr"] in (5, 12) and o["recover"]]
+    strict = dict(ASBUILT, freehit=False, acccap=2)
+    design_level(run, groups, inputs, options, lambda g: bud, 60 if tier == "quick" else 400, asbuilt=strict, liveness=True, inputs_idx=range(0, nin, 2), label="design_model_liveness")
+    # (ii) as built (a memo hit is free, known finding F3): TLC must exhibit the non-terminating lasso on the diverging groups
+    memo_bud = [i for i in bud if options[i]["memo"]]
+    dg = [g for g in groups if g.maydiverge][:12]
+    r_asbuilt = design_level(run, groups, inputs, options, lambda g: memo_bud, 12, subset=dg, asbuilt=dict(ASBUILT, acccap=2), liveness=True, inputs_idx=range(0, nin, 3), label="design_model_as_built_F3")
+    run.notes = [x for x in run.notes if not x.startswith("design_model_as_built_F3")]
+    run.cov["design_model_as_built_F3"]["lasso_found"] = r_asbuilt.get("violated") == "Termination"
+    design_level(run, groups, inputs, options, lambda g: [i for i in range(nopt) if options[i]["maxexpr"] in (3, 9, 3000) and not options[i]["memo"] and options[i]["recover"]],
+                 150 if tier == "quick" else 2000, inputs_idx=range(nin))
     return std_finish(run, div, tot, "grammars whose repetitions iterate without consuming ((e?)*, (&e)+, (''/e)*, (e*)*, nested, under rules, with recovery) + random grammars x all inputs x budgets n = 1..N and 3000 x Memoize on/off (+ Recover(false)); verdicts: returned in time, budget error iff the meaning needs more than n evaluations (PegRef's count; 'diverges' = always), ExprCnt <= n+1, otherwise result identical to the unbounded meaning",
                       classify=classify_F3, extra=dict(budgets=maxb + 2, diverging_groups=sum(1 for g in groups if g.maydiverge)))
 
@@ -456,7 +525,8 @@ def check_C08(tier, seed, replay=None):
     inputs = F.all_inputs([F.NN, F.PLUS, F.STAR_, F.LP], maxlen)
     rng = random.Random(seed)
     for _ in range(200 if tier == "quick" else 2000):
-        inputs.append([rng.choice([F.NN, F.NN, F.PLUS, F.MINUS, F.STAR_, 94, F.LP, F.RP]) for _ in range(rng.randint(maxlen + 1, maxlen + 4))])
+        inputs.append([rng.choice([F.NN, F.NN, F.PLUS, F.MINUS, F.STAR_, 94, F.LP, F.RP, 120]) for _ in range(rng.randint(maxlen + 1, maxlen + 4))])
+    inputs += [[F.NN, op, F.NN, 120] for op in (F.PLUS, F.MINUS, F.STAR_)] + [[F.NN, F.PLUS, F.NN, F.PLUS, F.NN, 120], [F.NN, F.PLUS, F.NN, F.STAR_, F.NN, 120]]
     options = [opt(), opt(memo=True)]
     nin = len(inputs)
     div, tot = run.execute(groups, inputs, options, lambda g: [(ii, oi) for ii in range(nin) for oi in (0, 1)],
@@ -572,7 +642,26 @@ def check_C19(tier, seed, replay=None):
         nr = rng.randint(3, 4)
         sp = [(rng.choice(["X/e", "eX", "e?X", "X", "(e/'')X", "X{}", "l:X"]), rng.randint(1, nr), rng.choice(["a?", "''", "a"]), rng.random() < 0.8) for _ in range(nr)]
         extra.append(F.c07_group(len(groups) + len(extra) + 1, sp))
+    # dense left-call graphs: several nested cycles, a leader has to be chosen (every rule starts each alternative with a reference)
+    from peg import Gram as _G
+    dense = []
+    for _ in range(60 if tier == "quick" else 500):
+        nr = rng.randint(3, 5)
+        g = _G(len(groups) + len(extra) + len(dense) + 1)
+        roots = []
+        for ri in range(nr):
+            alts = []
+            for _a in range(rng.randint(1, 2)):
+                alts.append(g.seq([g.ref(rng.randint(1, nr)), g.lit([F.A + rng.randint(0, 2)])]))
+            alts.append(g.lit([F.B + ri]))
+            roots.append(g.choice(alts))
+        g.rules = roots
+        g.disp = [""] * nr
+        g.compute_args()
+        dense.append(g)
+    extra += dense
     groups += extra
+    dense_ids = {g.gi for g in dense}
     # design level: which grammars are sensitive to the order in which rules are visited (TLC, all orders)
     gp = os.path.join(P.workdir(), "groups.ndjson")
     dump_groups(groups, gp)
@@ -592,8 +681,8 @@ def check_C19(tier, seed, replay=None):
         states += r.get("distinct", 0)
         trans += r.get("generated", 0)
     sens_set = set(sens)
-    chosen = [g for g in groups if g.gi in sens_set]
-    others = [g for g in groups if g.gi not in sens_set]
+    chosen = [g for g in groups if g.gi in sens_set or g.gi in dense_ids]
+    others = [g for g in groups if g.gi not in sens_set and g.gi not in dense_ids]
     rng.shuffle(others)
     chosen += others[: (60 if tier == "quick" else 600)]
     pigeon = P.build_pigeon()
@@ -1224,7 +1313,8 @@ def c09_groups(seed, n, gi0=1):
     out = []
     lits = [((F.A,), False), ((F.B,), False), ((F.A, F.B), False), ((F.UA,), True), ((F.B,), True), ((), False)]
     clss = [((F.A,), (), False, False), ((F.B,), (), False, False), ((F.A,), (), True, False), ((F.B,), (), True, False),
-            ((), (F.A, F.B), False, False), ((F.UA,), (), False, True), ((F.A,), (), True, True), ((F.B, 99), (), False, False)]
+            ((), (F.A, F.B), False, False), ((F.UA,), (), False, True), ((F.A,), (), True, True), ((F.B, 99), (), False, False),
+            ((F.A, F.B, 99), (), False, False), ((F.A, F.B, 99, F.UA, 100), (), False, False), ((F.A, F.UA, 99), (), False, True)]
     for i in range(n):
         g = Gram(gi0 + i)
         nr = rng.randint(2, 4)
@@ -1254,6 +1344,9 @@ def c09_groups(seed, n, gi0=1):
                     return g.seq([g.seq(inner), term(), g.seq([term(), term()])])
                 return g.choice([g.choice(inner), term(), g.choice([term(), term()])])
             if k == "ref":
+                if refs and rng.random() < 0.5:       # a leaf rule right next to a mergeable alternative, possibly under * (Head/Tail idiom)
+                    c = g.choice([g.ref(rng.choice(refs)), term()] if rng.random() < 0.5 else [term(), g.ref(rng.choice(refs))])
+                    return g.un("star", c) if rng.random() < 0.3 else c
                 return g.ref(rng.choice(refs)) if refs else term()
             if k == "star":
                 return g.un("star", g.seq([g.cls((F.A, F.B), (), False, False), expr(d - 1, refs)]))
